@@ -8,7 +8,8 @@ PKG = "p2p/net/connmgr"
 OVERLAY = {PKG + "/zz_c14_verif_test.go": "harness/overlay/connmgr/c14_verif_test.go"}
 OPN = {1: ("Connected", 2), 2: ("Disconnected", 2), 3: ("TagPeer", 3), 4: ("UntagPeer", 2), 5: ("UpsertTag+", 3),
        6: ("Bump", 3), 7: ("DecayRemove", 2), 8: ("DecayClose", 1), 9: ("Protect", 2), 10: ("Unprotect", 2),
-       11: ("Advance", 1), 12: ("TrimOpenConns", 0), 13: ("ForceTrim", 0)}
+       11: ("Advance", 1), 12: ("TrimOpenConns", 0), 13: ("ForceTrim", 0),
+       14: ("ReRegisterDecayingTag(d,accepted)", 2), 16: ("DecayCloseQueuedLoopStalled", 1)}
 
 
 def harness(ctx, casefile, tier, seed):
@@ -191,15 +192,17 @@ if __name__ == "__main__":
         "each exported method and each decayer command is one atomic step (segment locks, plk, trimMutex not modelled); "
         "concurrency is modelled as an LTS of critical sections (Conc.v): TrimOpenConns split into begin / per-peer snapshot / sort comparisons / per-entry "
         "selection / close, the decayer tick split per peer, every other method one section; per-peer snapshot and tick steps in any order are a superset of the "
-        "code's per-segment sections; Protect/Unprotect block during the snapshot phase (plk); one trim at a time (trimMutex); NOT split: ForceTrim, the decaying-tag "
-        "Close command; the background loop's unlocked trim() is not modelled; a snapshot entry whose peerInfo object left the map is a flag (such an object has no "
+        "code's per-segment sections; Protect/Unprotect block during the snapshot phase (plk); one trim at a time (trimMutex); NOT split: ForceTrim and the per-segment "
+        "value removal of a processed decaying-tag closure; decayingTag.Close is split into its synchronous part (closed flag, closure queued) and the loop's processing, "
+        "with RegisterDecayingTag racing in between (exact registry semantics - knownTags by name, generations, queue - in Registry.v); the background loop's unlocked trim() is not modelled; a snapshot entry whose peerInfo object left the map is a flag (such an object has no "
         "connections and is not temp for ever); sequential consistency at section granularity",
         "the implementation's interleavings are observable only at two hook points inside a trim (in the sort's comparator via Stat(), at the first CloseWithError) "
         "and at quiescence of random goroutine races; other schedules of the LTS are covered by the theorems only",
         "sort.Slice enters as a Section variable with hypotheses 'permutation' and 'ordered by (temp, value)'; instantiated by insertion sort; "
         "the stream/direction tie-breakers are not modelled, every resolution of ties is admitted by trim_ok",
         "an absent tag and a tag of value 0 are identified (the property is about totals); decaying tags use DecayNone/DecayFixed(k>=0) and "
-        "BumpSumUnbounded/BumpSumBounded, all registered at creation",
+        "BumpSumUnbounded/BumpSumBounded, registered at creation and re-registered (same name and parameters) after a Close; "
+        "a closed tag whose closure is still queued is not ticked in the model (the harness cannot advance the clock while it holds the loop)",
         "a peer's tags are forgotten when its last connection is disconnected, and a regular trim may drop the buffered early tags of a peer "
         "that holds no connection (both are the code's documented design; the monitor accepts the second only when the implementation reports the peer absent)",
         "a manager with low = 0 or high = 0 is disabled by configuration: the 'at most low-watermark connections remain' clause is not demanded of it",
@@ -220,7 +223,10 @@ if __name__ == "__main__":
              "over 6 peers x 4 connection identities x 3 tags x 2 protection tags x 2 decaying tags against the real BasicConnMgr + decayer "
              "inside a testing/synctest bubble (virtual clock, exact quiescence): Connected/Disconnected (duplicates, unknown conns/peers), "
              "TagPeer/UntagPeer/UpsertTag (also before the first connection), decaying Bump/Remove/Close, Protect/Unprotect with two tags, clock "
-             "advances across the grace period and decay intervals, TrimOpenConns and ForceTrim, with Disconnected delivered (or not) for closed "
+             "advances across the grace period and decay intervals, TrimOpenConns and ForceTrim, Close of a decaying tag processed at once or QUEUED while the "
+             "decayer loop is held (harness lever: a bump for a peer outside the observed universe whose segment lock the harness holds), RegisterDecayingTag "
+             "with the same name during that window (refused: the name is still taken) and after the closure (accepted), bumps on the new tag and clock advances "
+             "past its interval (it must decay), with Disconnected delivered (or not) for closed "
              "connections. After every op: GetInfo().ConnCount, GetTagInfo (presence, Value, sum of Tags) of all peers, and the set of connections "
              "CloseWithError was called on. conform_case replays the ops on the Coq model (state compared exactly, closed set judged by trim_ok); "
              "monitor_case judges the observations by the property alone. DURING-TRIM cases (900 quick / 40000 thorough, + 1 directed): a deterministic "
